@@ -864,12 +864,35 @@ class Interp:
         m = re.search(r'promoted\[(\d+)\]$', t)
         if m:
             return self.eval_promoted(st, fn, int(m.group(1)))
+        m = re.match(r'^\{(alloc\d+): &(.*)\}$', t)
+        if m and re.search(r'\b(Lazy|Mutex|RwLock|RefCell|OnceCell|Atomic\w+)\b', m.group(2)):
+            # a reference to a process-wide mutable static: whatever earlier calls in this process left there is an INPUT of
+            # the function under analysis (arbitrary contents, bounded), not part of its result
+            return self.static_ref(st, fn.crate + ':' + m.group(1), m.group(2))
         # named constant
         v = self.eval_named_const(st, fn, t, want_ty)
         if v is not None:
             return v
         # fn items / constructors used as values
         return Opaque('fnitem', t)
+
+    def static_ref(self, st, key, ty):
+        """pointer to the cell modelling a mutable static (one cell per static and path, contents arbitrary at first use)"""
+        cells = st.notes.setdefault('statics', {})
+        if key not in cells:
+            from .collections import MapM
+            m = re.search(r'HashMap<([^,]+), ([^,>]+)', ty)
+            if not m:
+                raise Unsupported('mutable static of type %s (only maps are modelled)' % ty)
+            kt, vt = m.group(1).strip(), m.group(2).strip()
+            mm = MapM()
+            for i in range(2):
+                k = self.sym_value(kt, 'static_%s_key%d' % (key.replace(':', '_'), i), st)
+                v = self.sym_value(vt, 'static_%s_val%d' % (key.replace(':', '_'), i), st)
+                mm = mm.insert(k, v, z3.Bool('static_%s_has%d' % (key.replace(':', '_'), i)))
+            cells[key] = st.alloc(Opaque('Map', mm))
+            st.events.append(('static_read', key, ty))
+        return Ptr(cells[key])
 
     def eval_promoted(self, st, fn, k):
         base = fn.name
